@@ -335,6 +335,11 @@ impl Reporter for CapturingReporter {
             return;
         }
         emit(json!({"ev":"report","w":wall_us(),"recs":spans.iter().map(record_json).collect::<Vec<_>>()}));
+        if !spans.is_empty() && shared().free.load(Ordering::SeqCst) && shared().reentrant.load(Ordering::SeqCst) {
+            // free-running rounds: a reporter that takes a little time, so that a flush() called right after
+            // the work may find a cycle in progress that has already drained the queues
+            std::thread::sleep(std::time::Duration::from_micros(300));
+        }
         if !spans.is_empty() {
             shared().nrecs.fetch_add(spans.len(), Ordering::SeqCst);
             shared().last_rec_us.store(mono_us() as u64, Ordering::SeqCst);
